@@ -119,13 +119,18 @@ def prepare_sources(run, ob, odir):
     os.makedirs(sdir, exist_ok=True)
     cuts = ob.get("cuts", {})
     files = list(ob.get("include", [])) + list(ob.get("units", []))
-    for f in cuts:
+    for f in list(cuts) + list(ob.get("subst", {})):
         if f not in files:
             raise RuntimeError("cut for %s but file not in include/units" % f)
     for f in files:
         text = open(os.path.join(REPO, f), encoding="latin-1").read()
         if f in cuts:
             text = cut_source(text, cuts[f], f)
+        for (a, b) in ob.get("subst", {}).get(f, []):
+            # stated size reductions of compile-time constants (e.g. a copy-buffer size); must match exactly once
+            if text.count(a) != 1:
+                raise RuntimeError("subst: %r occurs %d times in %s" % (a, text.count(a), f))
+            text = text.replace(a, b)
         open(os.path.join(sdir, f), "w", encoding="latin-1").write(text)
     return sdir
 
@@ -149,7 +154,31 @@ def build_goto(run, ob, odir):
     r = sh(["goto-cc"] + objs + ["-o", allgb], timeout=300)
     if r["rc"] != 0:
         raise RuntimeError("goto-cc link failed:\n%s" % (r["err"] + r["out"])[-4000:])
+    # no-body guard: CBMC lets calls to body-less functions return nondet, silently.  Every body-less
+    # function that is statically reachable from the entry point and not on the obligation's allow-list
+    # gets a trapping body (assert false), so reaching it makes the check fail instead of inventing values.
+    r = sh(["cbmc", allgb, "--function", ob.get("entry", "harness"), "--drop-unused-functions", "--show-goto-functions", "--json-ui"], timeout=300)
+    nobody = []
+    try:
+        for m in json.loads(r["out"]):
+            if "functions" in m:
+                nobody = [f["name"] for f in m["functions"] if not f.get("isBodyAvailable") and not f["name"].startswith("__")]
+    except Exception:
+        raise RuntimeError("cannot list goto functions:\n" + (r["out"] + r["err"])[-2000:])
+    trap = sorted(set(nobody) - set(ob.get("allow_nobody", [])) - BUILTIN_OK)
+    ob["_trapped"] = trap
+    if trap:
+        gb2 = os.path.join(odir, "all2.gb")
+        rx = "^(" + "|".join(re.escape(t) for t in trap) + ")$"
+        r = sh(["goto-instrument", "--generate-function-body", rx, "--generate-function-body-options", "assert-false-assume-false", allgb, gb2], timeout=300)
+        if r["rc"] != 0:
+            raise RuntimeError("goto-instrument generate-function-body failed:\n" + (r["err"] + r["out"])[-3000:])
+        return gb2
     return allgb
+
+
+# library functions CBMC models itself (or whose nondet result is harmless: none so far)
+BUILTIN_OK = set()
 
 
 BACKENDS = {
@@ -400,9 +429,10 @@ def run_obligation(run, ob):
     odir = os.path.join(run.scratch, ob["name"])
     os.makedirs(odir, exist_ok=True)
     try:
+        ob = dict(ob)
         gb = build_goto(run, ob, odir)
+        rec["trapped_bodyless"] = ob.get("_trapped", [])
         if ob.get("unwind_fn"):
-            ob = dict(ob)
             ob["_unwind_fn_expanded"] = expand_unwind_fn(gb, ob["unwind_fn"])
         win, allr = run_cbmc_portfolio(ob, gb)
         rec["solver_s"] = sum(r["wall"] for r in allr)
@@ -415,11 +445,6 @@ def run_obligation(run, ob):
             rec["notes"].append("no definitive answer: " + " | ".join(why))
             return rec
         rec["backend_used"] = win["backend"]
-        nb = nobody_callees(win["msgs"]) - set(ob.get("allow_nobody", []))
-        if nb:
-            rec["status"] = "broken"
-            rec["notes"].append("body-less callees not on the allow-list (would return nondet): %s" % sorted(nb))
-            return rec
         viol, wit_ok, wit_bad, nprops = classify(win["results"])
         rec["props"] = nprops
         rec["witnesses"] = len(wit_ok)
